@@ -49,6 +49,16 @@ ASSUMPTIONS = ["the ~2 s overshoot bound and limits on every trajectory depend o
 
 
 def interp_hook(name, node, args, kwargs, st, ex, recv):
+    if name in ("np.interp", "numpy.interp") and len(args) < 3 and set(kwargs) <= {"x", "xp", "fp", "left", "right", "period"}:
+        # np.interp(x, xp, fp) with some of the three given by keyword: bound as numpy's signature binds them
+        bound = list(args)
+        for p_ in ("x", "xp", "fp")[len(bound):]:
+            if p_ not in kwargs:
+                bound = None
+                break
+            bound.append(kwargs[p_])
+        if bound is not None:
+            args = bound
     if name in ("np.interp", "numpy.interp") and len(args) == 3:
         return sp.Function("interp")(ex.S(args[0]), ex.sym(ex.text(args[1])), ex.sym(ex.text(args[2])))
     if name in ("np.array", "numpy.array") and len(args) == 1:
